@@ -23,6 +23,11 @@ package main
 //                        uintN, N >= 32: signed comparator
 //   named_result_zero    a named result read before it is assigned (MPCL does
 //                        not zero-initialise named results: undriven wires)
+//
+// genOpts.globals > 0 (mode `pkg`): the program also has package-level var /
+// const / type declarations, used directly and shadowed by parameters and
+// function-level locals (gen_pkg.go).  With globals == 0 no random draw and no
+// output differs from the generator without that option.
 
 import (
 	"fmt"
@@ -39,6 +44,7 @@ type gvar struct {
 	assignable bool
 	loop       bool
 	lmax       int
+	gl         *Global // package-level declaration (gen_pkg.go); nil for parameters and locals
 }
 
 type genOpts struct {
@@ -47,25 +53,28 @@ type genOpts struct {
 	defect   string // probe class
 	maxStmts int
 	maxDepth int
+	globals  int // package-level declarations (gen_pkg.go): 0 none (the generator behaves exactly as before), 1 some, 2 dense
 }
 
 type gen struct {
-	r        *hxlib.Rng
-	p        *Program
-	f        *Func
-	vars     []gvar
-	nameCtr  int
-	iters    int // product of the enclosing loops' iteration counts
-	cost     int // rough gate estimate so far
-	opts     genOpts
-	palette  []*Ty
-	hit      map[string]bool // defect shapes actually emitted
-	inBlock  int             // nesting depth of if/for blocks
-	loops    int
-	called   map[*Func]bool
-	mustMix  []string        // variables the next returns should depend on
-	frozen   map[string]bool // variables that must not be assigned right now
-	constRet bool            // every return of the current function returns literals
+	r           *hxlib.Rng
+	p           *Program
+	f           *Func
+	vars        []gvar
+	nameCtr     int
+	iters       int // product of the enclosing loops' iteration counts
+	cost        int // rough gate estimate so far
+	opts        genOpts
+	palette     []*Ty
+	hit         map[string]bool // defect shapes actually emitted
+	inBlock     int             // nesting depth of if/for blocks
+	loops       int
+	called      map[*Func]bool
+	mustMix     []string        // variables the next returns should depend on
+	frozen      map[string]bool // variables that must not be assigned right now
+	constRet    bool            // every return of the current function returns literals
+	shadows     map[string]bool // package-level names the current function has shadowed by a local
+	forceShadow bool            // the next function-level `var` shadows a package-level name (gen_pkg.go)
 }
 
 const costBudget = 60000
@@ -130,6 +139,9 @@ func (g *gen) scalarTy() *Ty {
 }
 
 func (g *gen) aggTy() *Ty {
+	if len(g.p.ArrTypes) > 0 && g.pct(35) {
+		return g.p.ArrTypes[g.r.Intn(len(g.p.ArrTypes))]
+	}
 	switch g.pick(55, 30, 15) {
 	case 0:
 		e := g.paletteTy()
@@ -293,7 +305,7 @@ func (g *gen) shape(kind string, pctOrdinary int) bool {
 
 func (g *gen) typeConst(e *Expr, op string) {
 	bits := 32
-	if e.K == "lit" {
+	if e.K == "lit" || e.K == "cvar" {
 		bits = constBits(e.N)
 	}
 	if e.T.Signed() && e.T.W < bits && riskyOp(op) {
@@ -310,7 +322,7 @@ func (g *gen) typeConst(e *Expr, op string) {
 		// same number is then sign-extended from the narrow wires.  Only the
 		// probe class emits such casts.
 		kind := ""
-		if e.K == "lit" {
+		if e.K == "lit" || e.K == "cvar" {
 			kind = constCastRisky(e.T, e.N)
 		} else if !e.T.Signed() {
 			kind = "const_cast_shared"
@@ -373,7 +385,7 @@ func log2floor(n int) int {
 func (g *gen) indexFor(n int, d int) *Expr {
 	// loop variables in range
 	var loops []gvar
-	for _, v := range g.vars {
+	for _, v := range g.vis() {
 		if v.loop && v.lmax < n {
 			loops = append(loops, v)
 		}
@@ -402,7 +414,7 @@ func (g *gen) indexFor(n int, d int) *Expr {
 // paths enumerates readable places of type t reachable from variables.
 func (g *gen) leaves(t *Ty, d int) []*Expr {
 	var out []*Expr
-	for _, v := range g.vars {
+	for _, v := range g.vis() {
 		if v.loop {
 			continue
 		}
@@ -434,7 +446,7 @@ func (g *gen) leaves(t *Ty, d int) []*Expr {
 
 func (g *gen) loopLeaf(t *Ty, op string) *Expr {
 	var c []gvar
-	for _, v := range g.vars {
+	for _, v := range g.vis() {
 		if v.loop && fitsLoop(t, v.lmax) {
 			c = append(c, v)
 		}
@@ -451,7 +463,7 @@ func (g *gen) loopLeaf(t *Ty, op string) *Expr {
 
 func (g *gen) numVars() []gvar {
 	var c []gvar
-	for _, v := range g.vars {
+	for _, v := range g.vis() {
 		if !v.loop && v.t.IsNum() {
 			c = append(c, v)
 		}
@@ -508,7 +520,7 @@ func (g *gen) nonConstLeaf(t *Ty, d int) *Expr {
 		return ls[g.r.Intn(len(ls))]
 	}
 	// any numeric leaf anywhere (array element / field)
-	for _, v := range g.vars {
+	for _, v := range g.vis() {
 		if v.loop {
 			continue
 		}
@@ -568,7 +580,7 @@ func (g *gen) num(t *Ty, d int, allowConst bool) *Expr {
 					return e
 				}
 			}
-			if e := g.lit(t, "", false); e != nil {
+			if e := g.litOrConst(t, "", false); e != nil {
 				return e
 			}
 		}
@@ -661,7 +673,7 @@ func (g *gen) binNum(t *Ty, op string, d int) *Expr {
 			b = g.loopLeaf(t, op)
 		}
 		if b == nil {
-			b = g.lit(t, op, false)
+			b = g.litOrConst(t, op, false)
 		}
 		if b != nil {
 			g.tag("literal_operand")
@@ -687,7 +699,7 @@ func (g *gen) divNum(t *Ty, op string, d int) *Expr {
 	}
 	var b *Expr
 	if g.pct(45) {
-		b = g.lit(t, op, true)
+		b = g.litOrConst(t, op, true)
 		if b != nil {
 			g.tag("div_by_literal")
 		}
@@ -817,7 +829,7 @@ func (g *gen) cmp(d int) *Expr {
 			b = g.loopLeaf(t, op)
 		}
 		if b == nil {
-			b = g.lit(t, op, false)
+			b = g.litOrConst(t, op, false)
 		}
 		if b != nil {
 			g.tag("cmp_literal")
@@ -882,7 +894,7 @@ func (g *gen) declare(name string, t *Ty, assignable bool) {
 // lvalues enumerates assignable places.
 func (g *gen) lvalues() []*LVal {
 	var out []*LVal
-	for _, v := range g.vars {
+	for _, v := range g.vis() {
 		if !v.assignable || v.loop || g.frozen[v.name] {
 			continue
 		}
@@ -910,7 +922,7 @@ func (g *gen) lvalues() []*LVal {
 // constIndex: a compile-time constant index (literal or loop variable).
 func (g *gen) constIndex(n int) *Expr {
 	var loops []gvar
-	for _, v := range g.vars {
+	for _, v := range g.vis() {
 		if v.loop && v.lmax < n {
 			loops = append(loops, v)
 		}
@@ -937,8 +949,8 @@ func (g *gen) stmtDecl() []*Stmt {
 	// inner_shadow probe: re-declare an outer variable inside a block
 	if g.opts.defect == "inner_shadow" && g.inBlock > 0 && g.pct(60) {
 		var c []gvar
-		for _, v := range g.vars {
-			if !v.loop && v.t.IsScalar() && v.assignable {
+		for _, v := range g.vis() {
+			if !v.loop && v.t.IsScalar() && v.assignable && v.gl == nil && !g.globalName(v.name) {
 				c = append(c, v)
 			}
 		}
@@ -952,14 +964,22 @@ func (g *gen) stmtDecl() []*Stmt {
 			}
 		}
 	}
+	shadow := false
+	if g.opts.globals > 0 {
+		if sn, st := g.shadowName(t); sn != "" {
+			name, t, shadow = sn, st, true
+		}
+	}
 	if t.IsScalar() {
 		e := g.expr(t, g.opts.maxDepth, true)
 		if e == nil {
 			return nil
 		}
 		// `x := e`: only outside loop bodies (MPCL rejects a second `:=` of the
-		// same name) and never for constants (they would stay untyped)
-		if g.pct(30) && !e.IsConst() && g.loops == 0 && t.K != KBool {
+		// same name) and never for constants (they would stay untyped); a
+		// package-level name is shadowed with `var` (MPCL reads `g := e` as an
+		// assignment to the package-level g: "no new variables on left side of :=")
+		if !shadow && g.pct(30) && !e.IsConst() && g.loops == 0 && t.K != KBool {
 			g.tag("define")
 			g.declare(name, t, true)
 			return []*Stmt{{K: "define", Xs: []string{name}, E: e}}
@@ -1108,7 +1128,7 @@ func (g *gen) simpleCond(avoid map[string]bool) *Expr {
 				}
 			}
 			if b == nil {
-				b = g.lit(v.t, op, false)
+				b = g.litOrConst(v.t, op, false)
 			}
 			if b == nil {
 				b = &Expr{K: "shift", Left: false, A: a, Sh: 1, T: v.t}
@@ -1136,7 +1156,7 @@ func (g *gen) simpleCond(avoid map[string]bool) *Expr {
 // assignment, other variables assigned in the two branches.
 func (g *gen) stmtTwinIf(depth int, results []*Ty) []*Stmt {
 	var cand []gvar
-	for _, v := range g.vars {
+	for _, v := range g.vis() {
 		if v.assignable && !v.loop && v.t.IsScalar() && !g.frozen[v.name] {
 			cand = append(cand, v)
 		}
@@ -1177,7 +1197,7 @@ func (g *gen) stmtTwinIf(depth int, results []*Ty) []*Stmt {
 		var val *Expr
 		if g.pct(40) {
 			var same []gvar
-			for _, w := range g.vars {
+			for _, w := range g.vis() {
 				if !w.loop && w.t.Eq(tv.t) && !g.frozen[w.name] {
 					same = append(same, w)
 				}
@@ -1435,7 +1455,7 @@ func (g *gen) stmtMultiCall() []*Stmt {
 		ok := true
 		for _, rt := range f.Results {
 			var cand []gvar
-			for _, v := range g.vars {
+			for _, v := range g.vis() {
 				if v.assignable && !v.loop && v.t.Eq(rt) && !used[v.name] {
 					cand = append(cand, v)
 				}
@@ -1556,8 +1576,9 @@ func (g *gen) mixLive(t *Ty, e *Expr) *Expr {
 		return e
 	}
 	var cand []gvar
-	for i := len(g.vars) - 1; i >= 0; i-- {
-		v := g.vars[i]
+	vis := g.vis()
+	for i := len(vis) - 1; i >= 0; i-- {
+		v := vis[i]
 		if v.loop || !v.t.IsScalar() {
 			continue
 		}
@@ -1691,9 +1712,13 @@ func (g *gen) function(name string, index int, params []Param, results []*Ty, na
 	g.iters = 1
 	g.loops = 0
 	g.inBlock = 0
+	if g.opts.globals > 0 {
+		g.enterFunction(name == "main")
+	}
 	for _, p := range params {
 		g.declare(p.Name, p.T, true)
 	}
+	np := len(g.vars) // package-level names and parameters
 	if named {
 		for i := range results {
 			f.Named = append(f.Named, fmt.Sprintf("r%d", i))
@@ -1707,8 +1732,8 @@ func (g *gen) function(name string, index int, params []Param, results []*Ty, na
 		if !g.shape("named_result_zero", 40) {
 			// like the shipped named_return*.mpcl programs: every named result is
 			// assigned before anything reads it
-			hidden := g.vars[len(params):]
-			g.vars = g.vars[:len(params)]
+			hidden := g.vars[np:]
+			g.vars = g.vars[:np]
 			var pre []*Stmt
 			for i, rn := range f.Named {
 				e := g.expr(results[i], g.opts.maxDepth, false)
@@ -1726,6 +1751,15 @@ func (g *gen) function(name string, index int, params []Param, results []*Ty, na
 			}
 			g.vars = append(g.vars, hidden...)
 			body = pre
+		}
+	}
+	if g.opts.globals > 0 {
+		// dense class: shadow a package-level name at function level, then branch
+		pre, term := g.scopePrefix(name == "main", results)
+		body = append(body, pre...)
+		if term {
+			f.Body = body
+			return f
 		}
 	}
 	n := 1 + g.r.Intn(g.opts.maxStmts)
@@ -1852,6 +1886,9 @@ func genProgram(r *hxlib.Rng, opts genOpts) *Program {
 			g.tag("struct")
 		}
 	}
+	if opts.globals > 0 {
+		g.genGlobals()
+	}
 	// helpers
 	nh := g.pick(35, 35, 20, 10)
 	if opts.defect == "named_result_zero" && nh == 0 {
@@ -1929,5 +1966,8 @@ func genProgram(r *hxlib.Rng, opts genOpts) *Program {
 	}
 	sort.Strings(hits)
 	p.Defect = strings.Join(hits, ",")
+	if opts.globals > 0 {
+		tagScopes(p)
+	}
 	return p
 }
